@@ -179,8 +179,8 @@ func init() {
 }
 
 func init() {
-	registerKF("f22-swallowed-insert-failure", "C02,C11,C01",
-		"an insert whose callback fails frees its offset but keeps its insert marker and the stores it buffered; if the transaction body swallows the error and commits, those stores are applied: a ghost row appears, or a later insert of the same transaction reuses the offset and exposes the failed insert's values",
+	registerKF("f22a-failed-insert-offset-reuse", "C02,C11,C01",
+		"an insert whose callback failed gave its offset back at once but kept its insert marker and the stores it buffered; when the body swallowed the error and committed, a ghost row appeared, or a later insert of the same transaction reused the offset and exposed the failed insert's values",
 		func() (bool, string) {
 			c, _ := kfCollection(ColSpec{Name: "v", Kind: KInt})
 			defer c.Close()
@@ -195,6 +195,46 @@ func init() {
 			c.QueryAt(off, func(r column.Row) error { v, ok = r.Int("v"); return nil })
 			if ok || c.Count() != 1 {
 				return true, fmt.Sprintf("txn[insert{v=7}!fail; insert] commit: row %d reads v=%d,%v (want absent), Count()=%d (want 1)", off, v, ok, c.Count())
+			}
+			return false, ""
+		})
+	registerKF("f28-rollback-after-failed-insert-erases-foreign-row", "C02,C11",
+		"an insert whose callback failed gave its offset back at once while the transaction kept an insert marker for it; another transaction that inserted before the first one rolled back was handed that offset, and the rollback then released it a second time: the other transaction's COMMITTED row disappeared",
+		func() (bool, string) {
+			c, _ := kfCollection(ColSpec{Name: "v", Kind: KInt})
+			defer c.Close()
+			var other uint32
+			c.Query(func(txn *column.Txn) error {
+				_, err := txn.Insert(func(r column.Row) error { return errStep })
+				// another transaction inserts and commits meanwhile (nested here; another goroutine in production)
+				other, _ = c.Insert(func(r column.Row) error { r.SetInt("v", 99); return nil })
+				return err // the documented pattern: the body propagates the error => rollback
+			})
+			var v int
+			var ok bool
+			c.QueryAt(other, func(r column.Row) error { v, ok = r.Int("v"); return nil })
+			n := 0
+			c.Query(func(txn *column.Txn) error { n = txn.Count(); return nil })
+			if !ok || v != 99 || n != 1 || c.Count() != 1 {
+				return true, fmt.Sprintf("txn1[insert!fail] ... txn2[insert{v=99}] commits at offset %d ... txn1 rolls back: %d rows visible, Count()=%d (want 1), v=%d,%v", other, n, c.Count(), v, ok)
+			}
+			return false, ""
+		})
+	registerKF("f22-swallowed-insert-failure", "C15,C19",
+		"an insert whose callback fails cannot be withdrawn from the transaction: when the body swallows the error and commits, the commit carries the insert marker, the callback's stores and a delete marker - a commit is emitted (and triggers are called) for a row that never came into existence",
+		func() (bool, string) {
+			log := &recLogger{}
+			c := column.NewCollection(column.Options{Vacuum: 24 * 3600 * 1e9, Writer: log})
+			defer c.Close()
+			c.CreateColumn("v", column.ForInt())
+			c.Insert(func(r column.Row) error { r.SetInt("v", 1); return nil })
+			n0 := log.Len()
+			c.Query(func(txn *column.Txn) error {
+				txn.Insert(func(r column.Row) error { r.SetInt("v", 7); return errStep }) // error swallowed
+				return nil
+			})
+			if n := log.Len() - n0; n != 0 || c.Count() != 1 {
+				return true, fmt.Sprintf("txn[insert{v=7}!fail] commit (nothing changed, Count()=%d): %d commit(s) emitted to the change stream", c.Count(), n)
 			}
 			return false, ""
 		})
